@@ -194,7 +194,7 @@ def conv(e, cx, want):
         if k == 'call' and e[1][0] == 'mem' and e[1][2] == 'index' and grid_obj(e[1][1]) and len(e[2]) == 2:
             a = conv(e[2][0], cx, 'int')
             b = conv(e[2][1], cx, 'int')
-            return (a, '(wrapT nth %s)' % b)
+            return (a, '(wrapT %s %s)' % (nth_of(e[1][1]), b))
         raise TranslateError('not a node expression: %r' % (e,))
     if want == 'bool':
         if k == 'bin' and e[1] in ('&&', '||'):
@@ -207,6 +207,8 @@ def conv(e, cx, want):
                     '>=': '(%s <=? %s)%%Z' % (b, a), '==': '(%s =? %s)%%Z' % (a, b), '!=': '(negb (%s =? %s)%%Z)' % (a, b)}[e[1]]
         if k == 'id' and e[1] in cx.bools:
             return cx.bools[e[1]]
+        if k == 'bin' and e[1] == '&' and e[3] == ('num', '1'):
+            return '(Z.odd %s)' % conv(e[2], cx, 'int')
         raise TranslateError('not a boolean expression: %r' % (e,))
     if want == 'int':
         if k == 'num':
@@ -238,7 +240,7 @@ def conv(e, cx, want):
             if fn == 'numberSmootherCircles' and not e[2]:
                 return 'nsc'
             if fn == 'wrapThetaIndex' and len(e[2]) == 1:
-                return '(wrapT nth %s)' % conv(e[2][0], cx, 'int')
+                return '(wrapT %s %s)' % (nth_of(e[1][1]), conv(e[2][0], cx, 'int'))
         raise TranslateError('not an integer expression: %r' % (e,))
     # real
     if k == 'num':
@@ -283,6 +285,8 @@ def conv(e, cx, want):
     if k == 'call' and e[1][0] == 'mem' and grid_obj(e[1][1]) and len(e[2]) == 1:
         fn = e[1][2]
         a = conv(e[2][0], cx, 'int')
+        if e[1][1][1] == 'coarseGrid':
+            raise TranslateError('spacing / coordinate query on the coarse grid')
         if fn == 'radialSpacing':
             return '(h %s)' % a
         if fn == 'angularSpacing':
@@ -295,7 +299,12 @@ def conv(e, cx, want):
 
 
 def grid_obj(e):
-    return e[0] == 'id' and e[1] in ('grid', 'grid_')
+    return e[0] == 'id' and e[1] in ('grid', 'grid_', 'fineGrid', 'coarseGrid')
+
+
+def nth_of(e):
+    """the ntheta variable of the grid object an index / wrap call is made on"""
+    return 'nthc' if e[1] == 'coarseGrid' else 'nth'
 
 
 def assigned_muts(stmts, cx):
@@ -546,6 +555,23 @@ def gen_asc_ortho_take(src, name):
     return emit_block(parse_block(body), cx, 4)
 
 
+def gen_prolongation(src):
+    params, body = macro_body(src, 'FINE_NODE_PROLONGATION')
+    if params not in ([], ['']):
+        raise TranslateError('FINE_NODE_PROLONGATION has parameters: %r' % (params,))
+    # the macro uses i_r_coarse / i_theta_coarse of the enclosing loops: they must be i_r / 2 and i_theta / 2 at every use
+    clean = strip_comments(src)
+    fn = find_function_body(clean, r'void\s+Interpolation::applyProlongation\s*\(')
+    uses = len(re.findall(r'FINE_NODE_PROLONGATION\s*\(\s*\)', fn))
+    d1 = len(re.findall(r'int\s+i_r_coarse\s*=\s*i_r\s*/\s*2\s*;', fn))
+    d2 = len(re.findall(r'int\s+i_theta_coarse\s*=\s*i_theta\s*/\s*2\s*;', fn))
+    if uses == 0 or d1 != uses or d2 != uses or len(re.findall(r'\bi_r_coarse\s*=', fn)) != d1 or len(re.findall(r'\bi_theta_coarse\s*=', fn)) != d2:
+        raise TranslateError('applyProlongation: i_r_coarse / i_theta_coarse are not i_r / 2 and i_theta / 2 at every use of the macro')
+    cx = Ctx(arrays2={'x': 'x', 'result': 'result'}, arrays1={}, own2={}, own1={},
+             int_names={'i_r': 'i', 'i_theta': 'j', 'i_r_coarse': '(Z.quot i 2)', 'i_theta_coarse': '(Z.quot j 2)'}, real_names={}, bools={})
+    return emit_block(parse_block(body), cx, 4)
+
+
 def give_call_sites(src):
     """the arguments NODE_APPLY_A_GIVE is invoked with must be the node's own cached / computed values"""
     calls = re.findall(r'NODE_APPLY_A_GIVE\s*\(([^;]*?)\)\s*;', strip_comments(src), flags=re.S)
@@ -629,7 +655,7 @@ Definition wrapT (n x : Z) : Z := x mod n.
 Section StencilGen.
   Context {S : Sc}.
   Local Open Scope sc_scope.
-  Variable nr nth nsc : Z.
+  Variable nr nth nsc nthc : Z.
   Variable h k rad thetaf sin_cache cos_cache : Z -> S.
   Variable dFx_dr dFy_dr dFx_dt dFy_dt : Z -> Z -> S.
   Variable arr att art det : Z -> Z -> S.
@@ -637,6 +663,17 @@ Section StencilGen.
   Variable dirbc : bool.
   Definition gwrite := (((Z * Z) * wkind) * S)%%type.
 '''
+
+
+def write_if_changed(path, text):
+    """keep the time stamp when nothing changed, so that make does not rebuild the proofs"""
+    try:
+        if open(path).read() == text:
+            return
+    except OSError:
+        pass
+    with open(path, 'w') as f:
+        f.write(text)
 
 
 def main():
@@ -651,6 +688,7 @@ def main():
         take = gen_take(take_src)
         give = gen_give(give_src)
         rhs = gen_rhs(open(files['rhs']).read())
+        prol = gen_prolongation(open(os.path.join(REPO, 'src/Interpolation/prolongation.cpp')).read())
         sm_src = open(os.path.join(REPO, 'src/Smoother/SmootherTake/smootherSolver.cpp')).read()
         asc_c = gen_asc_ortho_take(sm_src, 'NODE_APPLY_ASC_ORTHO_CIRCLE_TAKE')
         asc_r = gen_asc_ortho_take(sm_src, 'NODE_APPLY_ASC_ORTHO_RADIAL_TAKE')
@@ -658,8 +696,7 @@ def main():
         gpos, gtabs, gget, gsz, gterm = gen_assembly(REPO, 'give')
     except TranslateError as ex:
         # leave a file that does not compile: the tie is then reported as broken, with the reason
-        with open(OUT, 'w') as f:
-            f.write('(* T3 could not translate the current source: %s *)\nT3_translation_failed.\n' % str(ex).replace('*)', '* )'))
+        write_if_changed(OUT, '(* T3 could not translate the current source: %s *)\nT3_translation_failed.\n' % str(ex).replace('*)', '* )'))
         print('T3 FAILED:', ex)
         return 1
     out = HEADER % '\n     '.join(os.path.relpath(p, REPO) for p in files.values())
@@ -670,6 +707,8 @@ def main():
         out += '\n  (* discretize_rhs_f, loop nest  for (%s) for (%s) *)\n' % (oh, ih)
         out += '  Definition gen_rhs_%s_visits (i j : Z) : bool := %s.\n' % (nm, dom)
         out += '  Definition gen_rhs_%s (rhs_f : Z -> Z -> S) (i j : Z) : list gwrite :=\n    %s.\n' % (nm, term)
+    out += '\n  (* ---- FINE_NODE_PROLONGATION (src/Interpolation/prolongation.cpp), x indexed by coarse nodes, nthc = coarse ntheta ---- *)\n'
+    out += '  Definition gen_prolongation (x : Z -> Z -> S) (i j : Z) : list gwrite :=\n    %s.\n' % prol
     out += '\n  (* ---- take smoother: NODE_APPLY_ASC_ORTHO_CIRCLE_TAKE / _RADIAL_TAKE (src/Smoother/SmootherTake/smootherSolver.cpp) ---- *)\n'
     out += '  Definition gen_asc_ortho_circle_take (rhs x : Z -> Z -> S) (i j : Z) : list gwrite :=\n    %s.\n' % asc_c
     out += '  Definition gen_asc_ortho_radial_take (rhs x : Z -> Z -> S) (i j : Z) : list gwrite :=\n    %s.\n' % asc_r
@@ -689,8 +728,7 @@ def main():
     out += '  Definition gen_give_get_stencil_size (i : Z) : Z :=\n    %s.\n' % gsz
     out += '  Definition gen_build_solver_matrix_give (i j : Z) : list mwrite :=\n    %s.\n' % gterm
     out += 'End StencilGen.\n'
-    with open(OUT, 'w') as f:
-        f.write(out)
+    write_if_changed(OUT, out)
     print('T3 ok:', OUT)
     return 0
 
